@@ -86,6 +86,15 @@ pub fn run(
     let mut iter_counter = 0u64;
 
     loop {
+        #[cfg(aquatic_verif)]
+        match aquatic_common::verif::probe("udp.socket.loop") {
+            aquatic_common::verif::ACTION_RETURN_OK => return Ok(()),
+            aquatic_common::verif::ACTION_RETURN_ERR => {
+                return Err(anyhow::anyhow!("verif: injected socket worker error"))
+            }
+            _ => (),
+        }
+
         poll.poll(&mut events, Some(poll_timeout)).context("poll")?;
 
         for event in events.iter() {
@@ -114,6 +123,9 @@ pub fn run(
         }
 
         if iter_counter % 256 == 0 {
+            #[cfg(aquatic_verif)]
+            aquatic_common::verif::count("udp.time_refreshed");
+
             shared.validator.update_elapsed();
 
             let opt_valid_until = ValidUntil::new(
